@@ -6,6 +6,7 @@ import (
 	"fmt"
 	"os"
 	"strconv"
+	"verif/harness/wworld"
 
 	"github.com/elnosh/gonuts/cashu"
 	"github.com/elnosh/gonuts/cashu/nuts/nut12"
@@ -140,6 +141,10 @@ func c10WSpecs(quick bool) []*wSpec {
 	}
 	return []*wSpec{
 		{Prop: "C10", Name: "C10-wallet-crossmint-rotated" + sfx, Cfg: crossMintCfg, Init: crossMintRotatedInit, Menu: crossMintP2PKMenu, Depth: d, NoInvariants: true},
+		// proofs that come back to the spendable bucket on every path (failed melt at once / after pending, reclaim, receive)
+		{Prop: "C10", Name: "C10-wallet-returned-proofs" + sfx, Cfg: wworld.Config{FeeA: 0, Wallets: []wworld.WalletCfg{{Default: "a"}, {Default: "a"}}},
+			Init: []string{"mint|0|16", "melt|0|4|F", "send|0|3|0", "reclaim|0", "send|0|5|0", "recv|1|0|0", "melt|0|4|P", "lnfinal|0|1|F", "checkmelt|0|1"},
+			Menu: func(*wworld.World) []string { return nil }, Probe: func(w *wworld.World) { w.CheckStoredDLEQ() }, Depth: 0, NoInvariants: true},
 		{Prop: "C10", Name: "C10-wallet-crossmint" + sfx, Cfg: crossMintCfg, Init: []string{"mint|2|16", "mint|0|8"}, Menu: crossMintP2PKMenu, Depth: d, NoInvariants: true},
 	}
 }
